@@ -12,6 +12,8 @@
  */
 
 #include "cppStructType.h"
+#include "cppArrayType.h"
+#include "cppConstType.h"
 #include "cppTypedefType.h"
 #include "cppReferenceType.h"
 #include "cppScope.h"
@@ -554,11 +556,13 @@ is_default_constructible(CPPVisibility min_vis) const {
       return false;
     }
 
-    return true;
+    // NB: if it's defaulted, it may still be deleted.
+    if ((constructor->_storage_class & CPPInstance::SC_defaulted) == 0) {
+      return true;
+    }
   }
-
-  // Does it have constructors at all?  If so, no implicit one is generated.
-  if (get_constructor() != nullptr) {
+  else if (get_constructor() != nullptr) {
+    // It has other constructors, so no implicit one is generated.
     return false;
   }
 
@@ -568,7 +572,10 @@ is_default_constructible(CPPVisibility min_vis) const {
   for (di = _derivation.begin(); di != _derivation.end(); ++di) {
     CPPStructType *base = (*di)._base->as_struct_type();
     if (base != nullptr) {
-      if (!base->is_default_constructible(V_protected)) {
+      if (!base->is_default_constructible(V_protected) ||
+          !base->is_destructible(V_protected)) {
+        // A base that cannot be constructed or destroyed from here makes the
+        // defaulted constructor deleted.
         return false;
       }
     }
@@ -590,7 +597,19 @@ is_default_constructible(CPPVisibility min_vis) const {
       continue;
     }
 
-    if (!instance->_type->is_default_constructible()) {
+    if (!instance->_type->is_default_constructible() ||
+        !instance->_type->is_destructible()) {
+      return false;
+    }
+
+    // A const member of non-class type without an initializer cannot be
+    // default-initialized, which makes the defaulted constructor deleted.
+    CPPType *member_type = instance->_type;
+    while (member_type->as_array_type() != nullptr) {
+      member_type = member_type->as_array_type()->_element_type;
+    }
+    if (member_type->as_const_type() != nullptr &&
+        member_type->as_const_type()->_wrapped_around->as_struct_type() == nullptr) {
       return false;
     }
   }
@@ -617,11 +636,13 @@ is_copy_constructible(CPPVisibility min_vis) const {
       return false;
     }
 
-    return true;
+    // NB: if it's defaulted, it may still be deleted.
+    if ((constructor->_storage_class & CPPInstance::SC_defaulted) == 0) {
+      return true;
+    }
   }
-
-  if (get_move_constructor() != nullptr ||
-      get_move_assignment_operator() != nullptr) {
+  else if (get_move_constructor() != nullptr ||
+           get_move_assignment_operator() != nullptr) {
     // A user-declared move constructor or move assignment operator means that
     // the implicitly-declared copy constructor is deleted.
     return false;
@@ -646,7 +667,8 @@ is_copy_constructible(CPPVisibility min_vis) const {
   for (di = _derivation.begin(); di != _derivation.end(); ++di) {
     CPPStructType *base = (*di)._base->as_struct_type();
     if (base != nullptr) {
-      if (!base->is_copy_constructible(V_protected)) {
+      if (!base->is_copy_constructible(V_protected) ||
+          !base->is_destructible(V_protected)) {
         return false;
       }
     }
@@ -663,7 +685,8 @@ is_copy_constructible(CPPVisibility min_vis) const {
       continue;
     }
 
-    if (!instance->_type->is_copy_constructible()) {
+    if (!instance->_type->is_copy_constructible() ||
+        !instance->_type->is_destructible()) {
       return false;
     }
   }
@@ -811,7 +834,10 @@ is_destructible(CPPVisibility min_vis) const {
       return false;
     }
 
-    return true;
+    // NB: if it's defaulted, it may still be deleted.
+    if ((destructor->_storage_class & CPPInstance::SC_defaulted) == 0) {
+      return true;
+    }
   }
 
   // Make sure all base classes are destructible.
